@@ -20,8 +20,8 @@ import (
 // (judgeFields / judgeMarshal).
 
 const correlatedRule = " Correlated parameter sets (correlated.go): records whose (AVCProfileIndication, profile_compatibility, AVCLevelIndication) range over B^3, B = {00,01,42,4d,64,c0,ff} " +
-	"(thorough: 16 values {00,01,02,2c,42,4d,58,64,6e,7a,7f,80,c0,f4,fe,ff}), x lengthSizeMinusOne 0..3 x parameter-set headers {(67,68),(27,28)} x placement of an SPS-like payload " +
-	"{first SPS | the PPS | both | second of two SPS | a lone SPS | a lone PPS} x payload length {1,2,3,4,9} (thorough +{5,255,256}) x leading payload bytes (b0,b1,b2) over " +
+	"(thorough: 12 values {00,01,02,42,4d,58,64,7f,80,c0,fe,ff}), x lengthSizeMinusOne 0..3 x parameter-set headers {(67,68),(27,28)} x placement of an SPS-like payload " +
+	"{first SPS | the PPS | both | second of two SPS | a lone SPS | a lone PPS} x payload length {1,2,3,4,9} (thorough +{255,256}) x leading payload bytes (b0,b1,b2) over " +
 	"{profile, profile^1, 00, ff} x {00, compatibility, c0, ff} x {level, 00, ff} (cut to the payload length, the rest is the position pattern), x origin {parsed from the ISO writer's bytes then marshalled, " +
 	"built through the API then marshalled}; a built record has profile_compatibility 0 (the API has no setter), for it b1 ranges over B. Each is judged like a mutation history of zero operations: exported fields read what was written; " +
 	"MarshalBinary twice == ISO writer of that value byte for byte; fields unchanged by marshalling; the bytes unmarshal into a fresh object to the same value which marshals to the same bytes. " +
@@ -30,7 +30,7 @@ const correlatedRule = " Correlated parameter sets (correlated.go): records whos
 
 var (
 	corrB     = []int{0x00, 0x01, 0x42, 0x4D, 0x64, 0xC0, 0xFF}
-	corrBThor = []int{0x00, 0x01, 0x02, 0x2C, 0x42, 0x4D, 0x58, 0x64, 0x6E, 0x7A, 0x7F, 0x80, 0xC0, 0xF4, 0xFE, 0xFF}
+	corrBThor = []int{0x00, 0x01, 0x02, 0x42, 0x4D, 0x58, 0x64, 0x7F, 0x80, 0xC0, 0xFE, 0xFF}
 )
 
 type corrShape struct {
@@ -174,7 +174,7 @@ func correlated(c *hl.Ctx) {
 		shapes: []int{0, 1, 2, 3, 4, 5}, lens: []int{1, 2, 3, 4, 9}, origins: []string{"parsed-marshalled", "built-marshalled"}}
 	if c.Thorough() {
 		g.P, g.C, g.L = corrBThor, corrBThor, corrBThor
-		g.lens = []int{1, 2, 3, 4, 5, 9, 255, 256}
+		g.lens = []int{1, 2, 3, 4, 9, 255, 256}
 	}
 	c.Info("correlated_field_values", fmt.Sprintf("%x", g.P))
 	c.Info("correlated_payload_lengths", g.lens)
